@@ -27,31 +27,25 @@ bytes, sequences, struct records, unit and newtype variants, nested arbitrarily,
 tuple structs, maps, tuple and struct variants, which `frag` excludes).  A builder created by `build_builder` at `path` for a field of type `dt`,
 after any successfully pushed rows, under the hypotheses of `push_err_iff`: an error of the next `push` is annotated
 `field` = `render path segs`, `data_type` = the label of the type at `segs`, for a position `segs` of the schema that
-`Spec.blameDT` blames for this value — or it is the one cell where builders and specification read `innermost`
-differently (`dict_null_cell` below): `None` for a non-nullable dictionary column is refused by the dictionary's key
-builder, `{p}.key`, where the specification names the dictionary column `p`. -/
+`Spec.blameDT` blames for this value.  No exception: the former cell `dict_null_cell` (`None` for a non-nullable
+dictionary column was refused by the dictionary's key builder, `{p}.key`, where the specification names the dictionary
+column `p`) is gone with repo fix ca6f255 — see `dict_null_repaired` / `dict_null_cell_pinned` below. -/
 theorem C18_ser_blame_partial (ext : Ext) [ExtPlain ext] (dt : DataType) (path : String) (n : Bool) (md : Metadata)
     (b0 : B) (h0 : newDT path dt n md = .ok b0) (rows : List SVal) (b : B) (hb : rows.foldlM (push ext) b0 = .ok b)
     (x : SVal) (hfrag : frag x = true)
     (hwf : WFB b) (hsafe : Safe b) (hshape : Shape b dt n md) (htot : total dt n md = true) (hraw : noRaw x = true)
     (hcap : NoCap ext b x) (msg : String) (ann : List (String × String)) (h : push ext b x = .error (.errCtx msg ann)) :
     ∃ segs label, (segs, label) ∈ segsDT dt md ∧ ann = [("data_type", label), ("field", render path segs)] ∧
-      (render path segs ∈ blameDT ext path dt n md x ∨
-        ∃ p ∈ blameDT ext path dt n md x, render path segs = p ++ ".key" ∧ msg = "Cannot push null for non-nullable array") := by
+      render path segs ∈ blameDT ext path dt n md x := by
   have hat : At path dt n md b :=
     ⟨b0, h0, foldl_push_takeRest ext rows b0 b hb⟩
-  obtain ⟨p, hp, hcell⟩ := push_bl ext x hfrag hraw b path dt n md ⟨hwf, hsafe, hshape, htot⟩ hat hcap msg ann h
+  obtain ⟨p, hp, hf⟩ := push_bl ext x hfrag hraw b path dt n md ⟨hwf, hsafe, hshape, htot⟩ hat hcap msg ann h
   rcases push_error_in_schema ext dt path n md b0 h0 rows b hb x _ h with ⟨s, hs⟩ | ⟨msg', segs, label, hmem, he⟩
   · cases hs
   · cases he
     refine ⟨segs, label, hmem, rfl, ?_⟩
-    rcases hcell with hf | ⟨hf, hm⟩
-    · left
-      have : render path segs = p := by simpa [List.lookup] using hf
-      rw [this]; exact hp
-    · right
-      refine ⟨p, hp, ?_, hm⟩
-      simpa [List.lookup] using hf
+    have : render path segs = p := by simpa [List.lookup] using hf
+    rw [this]; exact hp
 
 /-- the same at the record level (`to_marrow` / `ArrayBuilder::push`): `$`-rooted paths, `Spec.blameRow` -/
 theorem C18_ser_blame_record_partial (ext : Ext) [ExtPlain ext] (fields : List Field) (root0 : B)
@@ -61,9 +55,7 @@ theorem C18_ser_blame_record_partial (ext : Ext) [ExtPlain ext] (fields : List F
     (htot : total (.struct (Fields.ofList fields)) false [] = true) (hraw : noRaw x = true) (hcap : NoCap ext root x)
     (msg : String) (ann : List (String × String)) (h : push ext root x = .error (.errCtx msg ann)) :
     ∃ segs label, (segs, label) ∈ segsDT (.struct (Fields.ofList fields)) [] ∧
-      ann = [("data_type", label), ("field", render "$" segs)] ∧
-      (render "$" segs ∈ blameRow ext fields x ∨
-        ∃ p ∈ blameRow ext fields x, render "$" segs = p ++ ".key" ∧ msg = "Cannot push null for non-nullable array") :=
+      ann = [("data_type", label), ("field", render "$" segs)] ∧ render "$" segs ∈ blameRow ext fields x :=
   C18_ser_blame_partial ext (.struct (Fields.ofList fields)) "$" false [] root0 (by simpa [newRoot, newDT] using h0) rows root hb
     x hfrag hwf hsafe hshape htot hraw hcap msg ann h
 
@@ -99,8 +91,10 @@ def isFlatOwner : B → Bool
   | .bytes _ _ _ _ _ | .bytesView _ _ _ _ _ | .dictionary _ _ _ _ => true
   | _ => false
 
+/-- the scalar calls (`serialize_unit_struct` is none any more: since repo fix ae2fc46 its default forwards to
+`serialize_unit`, the null path — `pushNone`, which touches no capacity-limited counter) -/
 def isScalarCall : SVal → Bool
-  | .bool _ | .int _ _ | .f32 _ | .f64 _ | .char _ | .str _ | .unitStruct _ | .bytes _ => true
+  | .bool _ | .int _ _ | .f32 _ | .f64 _ | .char _ | .str _ | .bytes _ => true
   | _ => false
 
 /-- **C18_capacity_blame.**
@@ -174,21 +168,33 @@ example :
     .error (.errCtx "out of range integral type conversion attempted" [("data_type", "Dictionary(..)"), ("field", "$.d")]) := by
   decide +kernel
 
-/-! ### the cell where the two readings of `innermost` differ -/
+/-! ### the former cell `dict_null_cell` (repo fix ca6f255) -/
 
-/-- **`dict_null_cell`**: `d: Dictionary(Int8, Utf8)`, not nullable, receives `None`.  `Spec.blameDT` blames the column
-`$.d` (the documented mapping has no null for this FIELD); `DictionaryUtf8Builder::serialize_none` forwards to its key
-builder, whose `IntBuilder::serialize_none` refuses and annotates first: `$.d.key` / `Int8`.  Both name the dictionary
-column or the builder part directly inside it, neither a sibling nor a mere ancestor of a deeper failing FIELD.  The
-property text speaks of `the innermost field being processed`: `key` is not a field of the user's schema (a dictionary
-has no child fields in Arrow), so the reading of the specification (`$.d`) is the one the text supports; the crate's
-answer is more specific than the text asks for, not wrong in the sense of `sibling / only an ancestor`.  Recorded, not
-bent: `C18_ser_blame_partial` lists the cell explicitly. -/
-theorem dict_null_cell :
+/-- **Repaired** (`dict_null_repaired`): `d: Dictionary(Int8, Utf8)`, not nullable, receives `None`.  `Spec.blameDT`
+blames the column `$.d` (the documented mapping has no null for this FIELD), and so does the crate now:
+`DictionaryUtf8Builder::serialize_none` checks the nullability of its key builder and raises the error itself, under
+the dictionary's own path and type (the innermost SCHEMA field; `key` is not a field of the user's schema — a
+dictionary has no child fields in Arrow).  The row is in the fragment and inside every hypothesis of
+`C18_ser_blame_record_partial`. -/
+theorem dict_null_repaired :
     blameRow {} [.mk "d" (.dictionary .int8 .utf8) false []] (.record "R" (.cons "d" 0 .none .nil)) = ["$.d"] ∧
     (do let root ← newRoot [.mk "d" (.dictionary .int8 .utf8) false []]
         push {} root (.record "R" (.cons "d" 0 .none .nil))) =
-      .error (.errCtx "Cannot push null for non-nullable array" [("data_type", "Int8"), ("field", "$.d.key")]) :=
+      .error (.errCtx "Cannot push null for non-nullable array" [("data_type", "Dictionary(..)"), ("field", "$.d")]) ∧
+    frag (.record "R" (.cons "d" 0 .none .nil)) = true ∧
+    total (.struct (Fields.ofList [.mk "d" (.dictionary .int8 .utf8) false []])) false [] = true :=
+  ⟨by decide +kernel, by decide +kernel, by decide, by decide⟩
+
+/-- **Pinned** (`dict_null_cell_pinned`): before ca6f255 `DictionaryUtf8Builder::serialize_none` was
+`try_(|| self.indices.serialize_none().ctx(self)).ctx(self)`: the key builder's `IntBuilder::serialize_none` refuses
+and annotates first, both `.ctx(self)` of the dictionary are no-ops, and the error named `$.d.key` / `Int8` — a
+position the specification does not blame (and not a field of the schema). -/
+theorem dict_null_cell_pinned :
+    (ctx (B.dictionary "$.d" (.leaf "$.d.key" (.int .i8) none []) (.bytes "$.d.value" .utf8 none [0] []) []).ann
+      (ctx (B.dictionary "$.d" (.leaf "$.d.key" (.int .i8) none []) (.bytes "$.d.value" .utf8 none [0] []) []).ann
+        (pushNone (.leaf "$.d.key" (.int .i8) none []))) : R B) =
+      .error (.errCtx "Cannot push null for non-nullable array" [("data_type", "Int8"), ("field", "$.d.key")]) ∧
+    "$.d.key" ∉ blameRow {} [.mk "d" (.dictionary .int8 .utf8) false []] (.record "R" (.cons "d" 0 .none .nil)) :=
   ⟨by decide +kernel, by decide +kernel⟩
 
 end SaModel.Props.C18
